@@ -21,10 +21,19 @@ ASSUMPTIONS = ["simulated group coordinator (vlib/simkafka/group.py: Kafka's cla
 GROUP_APIS = ("join", "sync")
 
 
-def metadata_change_times(c, tag):
+def metadata_change_times(c, tag, events=None):
     """Instants at which the member learnt of a new topic or partition count (a metadata reply that differs from
-    what it knew): for pattern subscriptions and group leaders this is a subscription / assignment-input change."""
+    what it knew): for pattern subscriptions and group leaders this is a subscription / assignment-input change.
+    With `events`: also the instant a newly subscribed *pattern* takes effect - subscribe(pattern=) only stores the
+    pattern, the topic list changes when the next metadata reply is delivered (which may be much later when the
+    request subscribe() triggered fails), whether or not that reply differs from what the client knew."""
     md_changes = []
+    for e in events or ():
+        if e["kind"] == "subscribe" and e["member"] == tag and isinstance(e.get("topics"), str):
+            later = [x.t_end for x in c.arrivals if x.api == "metadata" and x.client_id == tag and x.delivered
+                     and x.reply and x.t_end is not None and x.t_end >= e["t"] - 1e-9]
+            if later:
+                md_changes.append(min(later))
     prev_sig = None
     for x in c.arrivals:
         if x.api == "metadata" and x.client_id == tag and x.delivered and x.reply and x.t_end is not None:
@@ -65,7 +74,7 @@ def group_checks(case, obs, out):
         # a successful JoinGroup reply is followed by SyncGroup for that generation / member id
         seq = [a for a in arrs if a.api in GROUP_APIS]
         sub_changes = [e for e in obs.events if e["kind"] == "subscribe" and e["member"] == tag]
-        md_changes = metadata_change_times(c, tag)
+        md_changes = metadata_change_times(c, tag, obs.events)
         for i, a in enumerate(seq):
             if a.api != "join" or not a.reply or a.reply.get("error") != 0 or a.t_end is None or not a.delivered:
                 continue
@@ -107,7 +116,8 @@ def generation_completeness(case, obs, out):
     """Every generation's distributed assignments cover every partition (that existed from the start) of every topic
     some member of that generation subscribed to: the leader assigns from metadata fetched for the group's whole
     topic list.  Only judged when no request of the case is dropped or lost - a failed metadata request lets the
-    leader legitimately assign from what it knows and repair it after the next refresh."""
+    leader legitimately assign from what it knows and repair it after the next refresh - and not for a generation
+    whose leader's application changed the leader's own subscription while that generation was being formed."""
     c = obs.cluster
     clean_net = all(f.get("act") in ("error", "delay") and f.get("sel") != "metadata" for f in case.get("faults", [])) \
         and not case.get("kills") and not any(e.get("ev") in ("node_down", "leader_gone") for e in case.get("env", []))
@@ -116,6 +126,17 @@ def generation_completeness(case, obs, out):
         return
     for gen in g.generations:
         if not gen["assignments"]:
+            continue
+        # The leader's own application changed its subscription between the leader's JoinGroup and its SyncGroup: the
+        # change replaces the topic list the client tracks (the one the leader had just widened to the group's
+        # topics), so the assignment is computed without the dropped topic.  The change itself sends the leader
+        # straight back into a rebalance, and the property excuses "a subscription change [that] intervenes".
+        ltag = (gen["members"].get(gen.get("leader")) or {}).get("client_id")
+        t_join = max([a.t for a in c.arrivals if a.api == "join" and a.client_id == ltag and a.t <= gen["t"] + 1e-9],
+                     default=gen["t"])
+        if any(e["kind"] == "subscribe" and e["member"] == ltag and t_join - 1e-9 <= e["t"] <= gen.get("t_sync", gen["t"]) + 1e-9
+               for e in obs.events):
+            out.label("generation_completeness:leader_resubscribed_meanwhile")
             continue
         seen = set()
         union = set()
